@@ -2,7 +2,7 @@
 # run_benign_fast.sh <grp> [jobs]: like run_benign.sh, but each behaviour-preserving patch is only evaluated by the
 # properties whose analysed packages (evidence/<id>.json .coverage.packages, from the last quick run) include a
 # directory the patch touches. Any DETECTED line is a false alarm.
-grp=$1; jobs=${2:-3}; out=/tmp/benign/$grp/results_fast.txt; : > $out
+grp=$1; jobs=${2:-3}; src=/verif/benign/$grp; [ -d /tmp/benign/$grp ] && src=/tmp/benign/$grp; mkdir -p /tmp/benign/$grp; out=/tmp/benign/$grp/results_fast.txt; : > $out
 one() {
   d=$1; grp=$2; n=$(basename $d .diff); w=/tmp/benign_run/f_${grp}_$n; mkdir -p $w; cp $d $w/patch.diff
   dirs=$(grep -h '^+++ b/' $d | sed 's#^+++ b/##' | xargs -n1 dirname | sort -u)
@@ -24,5 +24,5 @@ ALARM $id $o"
   echo "$res"
 }
 export -f one
-ls /tmp/benign/$grp/*.diff | xargs -P $jobs -I{} bash -c 'one {} '"$grp" >> $out
+ls $src/*.diff | xargs -P $jobs -I{} bash -c 'one {} '"$grp" >> $out
 grep -c "^ALARM" $out
